@@ -8,8 +8,9 @@
 -/
 import GoBT.Interp.Heap
 import GoBT.Interp.WriteReview
+import GoBT.Interp.HeapExec
 namespace GoBT.C08
-open GoBT GoBT.Interp.Heap
+open GoBT GoBT.Interp GoBT.Script GoBT.Interp.Heap
 
 /-- appending a cell never changes what an existing reference designates -/
 theorem deref_alloc (h : Heap) (b : Bytes) (r : Ref) (hv : r.valid h) : deref (alloc h b).1 r = deref h r := by
@@ -80,6 +81,49 @@ theorem in_place_changes_twin :
     (do let s1 ← dupStep s0; let s2 ← unaryStep .fresh shl s1; pure (s2.values, s2.heap.take 1)) =
       some ([[0x02], [0x01]], [[0x01]]) := by
   decide
+
+/-! ### the whole interpreter step on references (GoBT/Interp/HeapExec.lean)
+
+`hExecuteOpcode` is thread.executeOpcode over stacks of *references*: OP_TOALTSTACK … OP_TUCK move and duplicate slice
+headers (after OP_DUP both items are the same memory), every other opcode computes on the values and allocates what is
+new — which is what the regenerated obligation below establishes for the current sources. -/
+
+/-- **No aliasing is observable, for every program.**  Run any sequence of opcodes of any script on any state of
+    references (whatever sharing there is between the items: duplicates, picks, items that came from the script) and
+    read the stacks at the end: the result is exactly that of the value-semantics model `vRun` — which is the state
+    evolution of `runOps`, the function the interpreter-equivalence and no-panic theorems are about — on the values. -/
+theorem stack_items_never_alias (env : Env) (cur ops : List POp) (off : Nat) (h : HSt) (hv : h.Valid) :
+    (hRun env cur ops off h).abs = vRun env cur ops off h.abs ∧
+    ∀ sidx tr, (runOps env sidx cur ops off h.abs tr).1 = toEnd (vRun env cur ops off h.abs) :=
+  ⟨hRun_refines env cur ops off h hv, fun sidx tr => runOps_eq_vRun env sidx cur ops off h.abs tr⟩
+
+/-- **No side effects on memory that existed before the run.**  After any program that ends normally, every heap cell
+    that existed before — the caller's script and transaction buffers are such cells — holds the bytes it held before,
+    and every reference that was valid before designates the same bytes. -/
+theorem execution_leaves_existing_memory_alone (env : Env) (cur ops : List POp) (off : Nat) (h h' : HSt) (hv : h.Valid)
+    (hrun : hRun env cur ops off h = .ok h' ∨ hRun env cur ops off h = .success h') :
+    (∀ i, i < h.heap.length → h'.heap[i]? = h.heap[i]?) ∧ (∀ r : Ref, r.valid h.heap → deref h'.heap r = deref h.heap r) := by
+  have hg := hRun_heap env cur ops off h hv
+  have : (∃ cells, h'.heap = h.heap ++ cells) := by
+    rcases hrun with hr | hr <;> (rw [hr] at hg; exact hg.1)
+  obtain ⟨cells, hc⟩ := this
+  exact ⟨fun i hi => by rw [hc]; exact grows_cell _ _ i hi, fun r hr => by rw [hc]; exact deref_append _ _ r hr⟩
+
+/-- the same for a single opcode -/
+theorem one_opcode_refines (env : Env) (cur : List POp) (off : Nat) (o : POp) (h : HSt) (hv : h.Valid) :
+    (hExecuteOpcode env cur off o h).abs = executeOpcode env cur off o h.abs ∧ (hExecuteOpcode env cur off o h).Grows h :=
+  ⟨hExecuteOpcode_refines env cur off o h hv, hExecuteOpcode_heap env cur off o h hv⟩
+
+/-- non-vacuity: push-from-script cell 0 = `01`, the program `DUP INVERT` — the twins share cell 0 after DUP; INVERT
+    allocates its result: values `fe`, `01`; cell 0 still `01` -/
+example :
+    let H : Crypto := ⟨id, id, id, fun _ => true, fun _ _ _ _ => some true, fun _ => false⟩
+    let env : Env := ⟨H, 0, cfgBefore, none⟩
+    let prog : List POp := [⟨0x76, [], 1⟩, ⟨0x83, [], 1⟩]
+    let h0 : HSt := ⟨[[0x01]], [⟨0, 0, 1⟩], [], {}⟩
+    (match hRun env prog prog 0 h0 with
+     | .ok h' => some (h'.abs.ds, h'.heap.take 1, h'.ds.map (·.cell))
+     | _ => none) = some ([[0xfe], [0x01]], [[0x01]], [1, 0]) := by decide
 
 /-- ✓gen — **the allocate-the-result discipline holds in the current sources.**  Every byte-slice element store, `copy`,
     `append` and parameter-writing call in bscript/interpreter (regenerated by go/ssa on every run:
